@@ -144,6 +144,7 @@ func (fv *FuncVC) translate() (err error) {
 		fv.params[f.Name()] = Val{T: t}
 	}
 	fv.applyAxioms()
+	fv.setupReplay()
 	// preconditions
 	if fv.C != nil {
 		env := fv.newEnv(fv.entry, fv.entry)
